@@ -33,6 +33,9 @@ EDITS = {
     'D4-index-forbidden-on-m': [("                if conversion == '%':\n                    raise ForbiddenArgumentIndex(s)", "                if conversion == 'm':\n                    raise ForbiddenArgumentIndex(s)")],
     'D5-varprec-not-registered-when-indexed': [("            try:\n                parent.add_argument(varprec_index, VariablePrecision(self))", "            try:\n                parent.add_argument(varprec_index, VariableWidth(self))")],
     'D6-redundant-warn-raises': [("            if count != 1:\n                parent.warn(RedundantFlag, s, flag, flag)", "            if count != 1:\n                raise FlagError(s, flag)")],
+    'A1-add_argument-ge': [("        if n > NL_ARGMAX:\n            raise OverflowError(n)", "        if n >= NL_ARGMAX:\n            raise OverflowError(n)")],
+    'A2-add_argument-numbered-after-one': [("        elif self._next_arg_index == 1:", "        elif self._next_arg_index <= 2:")],
+    'A3-add_argument-no-increment': [("                self._next_arg_index += 1", "                self._next_arg_index += 0")],
     # ---- behaviour-preserving edits of the decision code
     'P1-rename-locals': [(None, lambda t: re.sub(r"(?<![<'])\b(varwidth|varprec)_index\b", lambda m: m.group(1)[:4] + '_ix', t))],
     'P3-rename-a-group-consistently': [("varwidth_index", "vw_index")],
